@@ -326,3 +326,37 @@ def validate_traces(module, cfg, events, timeout=900, heap="4g", env=None, dfs=F
             if item not in viol:
                 viol.append(item)
     return res, viol
+
+
+def last_state(text):
+    """only the final STATE_n block of a -simulate trace file -> {var: value}"""
+    i = text.rfind("\nSTATE_")
+    if i < 0:
+        return None
+    body = text[i:]
+    body = body[body.index("==") + 2:]
+    j = body.find("\n\n")
+    if j >= 0:
+        body = body[:j]
+    st = {}
+    for m in re.finditer(r"^/\\ (\w+) = (.*?)(?=^/\\ \w+ = |\Z)", body.strip() + "\n", flags=re.M | re.S):
+        st[m.group(1)] = parse_value(m.group(2).strip())
+    return st
+
+
+def simulate_final_states(module, cfg, num, depth, seed, timeout=600):
+    """Run TLC -simulate and return the final state of each generated behaviour."""
+    d = scratch("sim")
+    try:
+        res = run(module, cfg, workers=1, simulate="file=%s/tr,num=%d" % (d, num), depth=depth, seed=seed, timeout=timeout)
+        if not res.ok:
+            raise MachineryError("%s simulation failed: %s" % (module, res["output"][-2000:]))
+        out = []
+        for fn in sorted(os.listdir(d)):
+            with open(os.path.join(d, fn)) as f:
+                st = last_state(f.read())
+            if st is not None:
+                out.append(st)
+        return res, out
+    finally:
+        shutil.rmtree(d, ignore_errors=True)
